@@ -29,6 +29,16 @@ pub(crate) struct World {
     base_bytes: usize,
 }
 
+/// [length, sum of (b+1), sum of (i+1)(b+1)]: the digest the run models print for long byte strings.
+pub(crate) fn digest3(bytes: &[i128]) -> Vec<i128> {
+    let (mut s1, mut s2) = (0i128, 0i128);
+    for (i, b) in bytes.iter().enumerate() {
+        s1 += b + 1;
+        s2 += (i as i128 + 1) * (b + 1);
+    }
+    vec![bytes.len() as i128, s1, s2]
+}
+
 pub(crate) fn leak(b: Vec<u8>) -> &'static [u8] {
     Box::leak(b.into_boxed_slice())
 }
@@ -60,6 +70,10 @@ impl World {
 
     /// The seven fields of one OwningIovec; false if a slice lies outside live memory.
     pub(crate) fn observe_one(&mut self, iov: &OwningIovec<'_>, obs: &mut Obs) -> bool {
+        self.observe_one_opt(iov, obs, false)
+    }
+    /// With `digest` the bytes field is [length, sum of (b+1), sum of (i+1)(b+1)] instead of the bytes themselves.
+    pub(crate) fn observe_one_opt(&mut self, iov: &OwningIovec<'_>, obs: &mut Obs, digest: bool) -> bool {
         let mut mem_ok = true;
         let (slices, anchors, cache, backrefs) = iov.verif_view();
         let (total, len, ok, nstable) = (iov.total_size(), iov.len(), iov.iovs().is_ok(), iov.stable_prefix().len());
@@ -77,7 +91,11 @@ impl World {
             cids.push(cid);
             cids.push(if cid == 0 { 0 } else { (*addr - start) as i128 });
         }
-        obs.push(bytes);
+        if digest {
+            obs.push(digest3(&bytes));
+        } else {
+            obs.push(bytes);
+        }
         let mut a = Vec::new();
         for (count, chunk) in &anchors {
             a.push(*count as i128);
